@@ -190,6 +190,21 @@ func hostileDecInputs(r *rand.Rand, n int, thorough bool) ([][]byte, []string) {
 		add(hdr(append(bytes.Repeat([]byte{0x01, 0x01}, k), 0x02, 0xFF, 0xFF)), "huge-list-at-end")
 		add(hdr(append(bytes.Repeat([]byte{0x01, 0x01}, k), 0x03, 0x08, 0x00, 0x00)), "huge-list-at-end")
 	}
+	// an element that is refused at once (a format byte announcing no length byte, a length that
+	// does not fit the width, a length beyond the input) inside lists that declare huge counts:
+	// nothing is set aside for elements that are never read
+	for _, bad := range [][]byte{{0x00}, {0x04}, {0xFC}, {0xB1, 0x03, 1, 2, 3}, {0x21, 0x7F}, {0xFD, 0x00}} {
+		for _, lh := range [][]byte{{0x02, 0xFF, 0xFF}, {0x03, 0x20, 0x00, 0x00}, {0x01, 0xFF}, {0x03, 0xFF, 0xFF, 0xFF}} {
+			add(hdr(append(append([]byte{}, lh...), bad...)), "refused-element-in-huge-list")
+			add(hdr(append(bytes.Repeat(lh, 20), bad...)), "refused-element-in-huge-list")
+			add(hdr(append(append(append([]byte{}, lh...), 0xA5, 0x01, 0x07), bad...)), "refused-element-in-huge-list")
+		}
+		// ... and as the innermost item of a deep chain of one-element lists: refusing costs no
+		// more than accepting
+		for _, d := range []int{500, 2000, 4000} {
+			add(hdr(append(bytes.Repeat([]byte{0x01, 0x01}, d), bad...)), "refused-innermost-item")
+		}
+	}
 	// valid messages nested deeply (memory must stay linear in the input whatever the depth)
 	deep := []int{500, 2000, 5000}
 	if thorough {
@@ -361,10 +376,44 @@ type history struct {
 	}
 }
 
+// snapItem: the observers are called in another order every time (printing must not change what
+// Variables() says, and so on)
 func snapItem(it ast.ItemNode) func() string {
-	return func() string { return showItem(it) }
+	calls := 0
+	return func() string {
+		calls++
+		var by, st, vs string
+		var sz int
+		order := [][]int{{3, 2, 1, 0}, {2, 0, 1, 3}, {1, 2, 0, 3}, {0, 1, 2, 3}}[calls%4]
+		for _, k := range order {
+			switch k {
+			case 0:
+				by = hx(keep(encTwice(it.ToBytes)))
+			case 1:
+				st = hxs(fmt.Sprint(it))
+			case 2:
+				vs = hxList(it.Variables())
+			default:
+				sz = it.Size()
+			}
+		}
+		// asked again after all the other observers have run: the same answer
+		if again := hxList(it.Variables()); again != vs {
+			vs += " (after the other observers: " + again + ")"
+		}
+		return fmt.Sprintf("bytes=%s str=%s vars=%s size=%d", by, st, vs, sz) + earlierResults()
+	}
 }
-func snapMsg(m *ast.DataMessage) func() string { return func() string { return showMsg(m) } }
+func snapMsg(m *ast.DataMessage) func() string {
+	return func() string {
+		before := hxList(m.Variables())
+		s := showMsg(m)
+		if after := hxList(m.Variables()); after != before {
+			s += " VARIABLES-CHANGED-BY-OBSERVERS " + before + " -> " + after
+		}
+		return s
+	}
+}
 func snapCtrl(m ast.HSMSMessage) func() string { return func() string { return showCtrl(m) } }
 
 func (h *history) add(desc string, snap func() string) {
@@ -396,7 +445,7 @@ func runHistory(r *rand.Rand, steps int) (violation string, trace []string) {
 	var ctrls []ast.HSMSMessage
 	log := func(f string, a ...interface{}) { h.steps = append(h.steps, fmt.Sprintf(f, a...)) }
 	newItem := func() {
-		n := genItem(r, GenOpt{MaxDepth: 3, MaxSlots: 4, PVar: 0.25})
+		n := genItem(r, GenOpt{MaxDepth: 3, MaxSlots: 4, PVar: 0.25, PEllipsis: 0.2})
 		if r.Intn(4) == 0 {
 			// an array with several variables among its values
 			k := arrayKinds[r.Intn(len(arrayKinds))]
